@@ -234,7 +234,14 @@ def check(s):
     # ---------------------------------------------------------------- C11.6 no process-wide JAX configuration is changed (PRNG implementation, x64, ...)
     from .C12 import check_global_config
     check_global_config(s, "C11.6")
-    for r_, n_ in (("C11.1", 250), ("C11.2", 20), ("C11.3", 50), ("C11.4", 250), ("C11.5", 4), ("C11.6", 50), ("C11.8", 1)):
+    # ---------------------------------------------------------------- C11.9 "different keys yield different runs" needs the keyed updates to
+    # happen at all: learn returns the actor, and SAC replaces the actor only under its gate. The gate `iteration_count %
+    # policy_frequency == 0` holds at the very first iteration (count 0), so every run of at least one iteration returns an actor
+    # that went through a keyed update; a shifted gate ((count + 1) % f) leaves runs shorter than policy_frequency with the
+    # initial actor whatever the key
+    from .C10 import check_sac_gates
+    check_sac_gates(s, "C11.9")
+    for r_, n_ in (("C11.1", 250), ("C11.2", 20), ("C11.3", 50), ("C11.4", 250), ("C11.5", 4), ("C11.6", 50), ("C11.8", 1), ("C11.9", 6)):
         s.floor(r_, n_)
 
 
